@@ -102,7 +102,9 @@ def tag(name, steps):
             imm.add(s["key"])
         if s["op"] == "discard":
             imm.discard(s["key"])
-    return name + ("+emptyreup" if hit else "")
+    # the shape of finding F-4: the key "." is accepted by filepath.Localize and names the configured directory itself
+    dot = any(s["op"] == "upload" and s["key"] == "." for s in steps)
+    return name + ("+emptyreup" if hit else "") + ("+dotkey" if dot else "")
 
 
 def scenario(name, steps, seq=True, fresh=0, dump=False, pre=("pre", "pre/sub")):
